@@ -6,6 +6,7 @@ Driver for Model/Fit.lean at ℚ:   lake env lean --run PgVerif/Drv/Fit.lean
   best [errors]                -> ok i | none
   guess [e0;~;e2;…]            -> ok i | none     (candidates in the order tried, `~` = fit refused; i = position of the one returned)
   branch [b0;b1;…] b           -> ok [indices]
+  start [defaults] [u0;~;u2;…] -> ok [x0]         (start vector of a fit: default guesses, caller's guesses with `~` = key absent)
 -/
 import PgVerif.Model.Fit
 import PgVerif.Drv.Proto
@@ -46,6 +47,10 @@ def step (ts : List String) : String :=
     | some bs, some b =>
       let rows := (List.range bs.length).zip bs
       "ok [" ++ ";".intercalate ((selectBranch rows b).map toString) ++ "]"
+    | _, _ => "bad-op"
+  | ["start", ds, us] =>
+    match ratList ds, (parseList us).bind (·.mapM optRat) with
+    | some ds, some us => "ok " ++ showRatList (startGuess ds us)
     | _, _ => "bad-op"
   | _ => "bad-op"
 
